@@ -275,7 +275,12 @@ def build_arg(spec, env):
         if k == 'cls':
             return g.klass()
         if k == 'qdecl':
-            return g.qualdecl()
+            q = g.qualdecl()
+            # 'any': False makes the server-side parser reject the request (known finding C04-KF2, kept as a dedicated
+            # probe); in the main streams it would only make the twins diverge for the rest of the history
+            for sk in [sk for sk in q.scopes if sk.lower() == 'any' and not q.scopes[sk]]:
+                del q.scopes[sk]
+            return q
         if k == 'str':
             return g.string(20)
         if k == 'name':
